@@ -49,7 +49,8 @@ Definition real_fn (name : string) (a : list Z) : Z :=
   end.
 
 (* hand-written ComputeSize impls of the sampled tables *)
-Definition vr_len (fmt : Z) : Z := popcount 16 fmt * 2.
+(* ValueFormat decodes with from_bits_truncate: only the 8 defined bits count *)
+Definition vr_len (fmt : Z) : Z := popcount 8 fmt * 2.
 Definition real_csize (ty : string) (a : list Z) : option Z :=
   match a with
   | [x] => if String.eqb ty "ValueRecord" then Some (vr_len x)
